@@ -17,6 +17,7 @@ from mc.engine import Check, h64
 
 DESTRUCTIVE = [(), ("Haplotig",), ("Contaminant",), ("FalseDuplicate",)]
 DECOR_QUICK = [(), ("Painted",), ("Painted", "Hap1"), ("Painted", "Hap2"), ("Target",), ("Painted", "Target")]
+DECOR_MATPAT = [(), ("Painted",), ("Painted", "MAT"), ("Painted", "PAT"), ("MAT",)]
 DECOR_FULL = DECOR_QUICK + [("Hap1",), ("Painted", "X"), ("Painted", "Hap1", "Target"), ("HAP2",), ("Painted", "Primary", "Hap1")]
 HAP_RE = re.compile(r"^([^_]+)_.+_\d+$")
 KNOWN = {"Painted", "Target", "Primary", "Contaminant", "Cut", "FalseDuplicate", "Haplotig", "Singleton", "Unloc"}
@@ -47,6 +48,8 @@ def inputs_for(bpt, tier):
         if tier == "thorough"
         else [("HAP1_SCAFFOLD_2", "hap2_scaffold_9"), ("scaffold_2", None), ("hap2_scaffold_2_1", "scaffold_9")]
     )
+    # haplotypes named without a digit, all capitals (MAT / PAT): explored with their own decoration list
+    combos = [*combos, ("PAT_SCAFFOLD_2", "MAT_SCAFFOLD_9")]
     for second, tiny in combos:
         if True:
             # (the 1-bp contig behind the last gap lies beyond the bait when the texel count is rounded down)
@@ -274,7 +277,8 @@ class C09(Check):
                     variants = [arr]
                     for arr2 in variants:
                         ng = len(arr2)
-                        for decs in itertools.product(decor if ng < 3 else DECOR_QUICK, repeat=ng):
+                        matpat = inp[1][0].startswith("PAT_")
+                        for decs in itertools.product(DECOR_MATPAT if matpat else (decor if ng < 3 else DECOR_QUICK), repeat=ng):
                             for ptags in itertools.product(DESTRUCTIVE, repeat=np_):
                                 if not full and np_ == 3 and all(ptags):
                                     continue  # quick: at most two destructively tagged pieces
@@ -311,3 +315,4 @@ CHECK = C09()
 # scope added in later rounds, kept in the evidence text
 CHECK.rule += ' scaffold_1 may end in a 1-bp contig that no bait touches: a contig outside every bait counts as sequence absent from the map.'
 CHECK.rule += ' CLI family 4: untagged chromosomes plus one scaffold carrying a single haplotype tag, optional haplotig / contaminant, optional haplotype-prefixed scaffold absent from the map; at file level the component rows of all AGP files partition the input residues, and a whole-scaffold piece must be in the one file its tags name.'
+CHECK.rule += ' Haplotypes named in capitals without a digit: input PAT_SCAFFOLD_2 (+ MAT_SCAFFOLD_9 absent) with decorations {unpainted, Painted, Painted+MAT, Painted+PAT, MAT}.'
